@@ -20,6 +20,7 @@ type gctx struct {
 	ops      []string
 	N        int64
 	M        int64
+	lastView string
 	curH     int64 // pool's state height
 	storeH   int64
 	nid      int
@@ -32,6 +33,9 @@ type gctx struct {
 func (g *gctx) do(op string) string {
 	g.ops = append(g.ops, op)
 	r := execOp(&g.c, op)
+	if strings.Contains(r, " pend=") {
+		g.lastView = r
+	}
 	if strings.HasPrefix(r, "panic") && g.r.Intn(4) != 0 { // the node is restarted after a crash
 		g.ops = append(g.ops, "restart")
 		if strings.HasPrefix(execOp(&g.c, "restart"), "ok") {
@@ -231,7 +235,7 @@ func (g *gctx) defineDV(f dvFields, genuine bool) string {
 
 func (g *gctx) defineLCA() string {
 	r := g.r
-	atk := []string{"lunatic", "lunatic", "equiv", "equiv", "amnesia", "same"}[r.Intn(6)]
+	atk := []string{"lunatic", "lunatic", "equiv", "equiv", "amnesia", "same", "lunatic", "lunaticbig"}[r.Intn(8)]
 	mut := "none"
 	if r.Intn(3) == 0 {
 		mut = []string{"badsig", "fewsig", "byzdrop", "byzextra", "byzpow", "byzswap"}[r.Intn(6)]
@@ -244,7 +248,7 @@ func (g *gctx) defineLCA() string {
 		common = g.N
 	}
 	cfh := common
-	if atk == "lunatic" {
+	if atk == "lunatic" || atk == "lunaticbig" {
 		cfh = common + 1 + r.Int63n(3)
 		if r.Intn(8) == 0 {
 			cfh = g.N + 1 + r.Int63n(2) // forward lunatic
@@ -360,7 +364,7 @@ func genCase(r *rand.Rand, long bool) core.Case {
 		N = int64(20 + r.Intn(21))
 	}
 	// Evidence.MaxBytes: often only one to four items' worth, so a pending backlog exceeds a block
-	M := []int64{300, 450, 800, 1000, 1300, 1700, 2500, 5000, 1 << 20, 1 << 20}[r.Intn(10)]
+	M := []int64{300, 450, 800, 1000, 1300, 1700, 2500, 5000, 30000, 1 << 20}[r.Intn(10)]
 	g := &gctx{r: r, N: N, M: M, genu: map[string]bool{}, kindOf: map[string]string{}}
 	g.do(fmt.Sprintf("ctx A=%d D=%d M=%d", A, D, M))
 	// validators
@@ -418,9 +422,23 @@ func genCase(r *rand.Rand, long bool) core.Case {
 	}
 	for i := 0; i < budget && g.curH < N; i++ {
 		switch k := r.Intn(100); {
-		case k < 28:
+		case k < 6:
+			g.concurrentReport()
+		case k < 11:
+			g.unseenBlock()
+		case k < 15:
+			g.peNear()
+		case k < 18: // small evidence through the consensus buffer
+			h := g.curH + 1
+			if h > N {
+				h = g.curH
+			}
+			if id := g.defineDV(g.smallDV(h), true); id != "" {
+				g.do(fmt.Sprintf("report e=%s swap=%d", id, r.Intn(2)))
+			}
+		case k < 32:
 			g.do("add e=" + g.someEvidence())
-		case k < 40:
+		case k < 42:
 			n := 1 + r.Intn(3)
 			var l []string
 			for j := 0; j < n; j++ {
@@ -513,7 +531,7 @@ func genCase(r *rand.Rand, long bool) core.Case {
 			}
 		case k < 96:
 			g.do(fmt.Sprintf("pe max=%d", []int64{-1, 0, 1, 300, 600, 1200, 1 << 20, -2, g.M, g.M}[r.Intn(10)]))
-		case k < 98:
+		case k < 97:
 			g.do(fmt.Sprintf("update h=%d ev=-", g.curH-int64(r.Intn(2)))) // not above the pool's state: panics
 		default:
 			g.do(hostileLine(r, g))
@@ -537,7 +555,7 @@ func genBacklog(r *rand.Rand) core.Case {
 	A := int64(20 + r.Intn(30))
 	D := []int64{0, 5000000000, 100000000000}[r.Intn(3)]
 	N := int64(8 + r.Intn(12))
-	M := []int64{300, 450, 800, 1000, 1300, 2000}[r.Intn(6)]
+	M := []int64{300, 450, 800, 1000, 1300, 2000, 26000, 60000}[r.Intn(8)]
 	g := &gctx{r: r, N: N, M: M, genu: map[string]bool{}, kindOf: map[string]string{}}
 	g.do(fmt.Sprintf("ctx A=%d D=%d M=%d", A, D, M))
 	t := int64(0)
@@ -566,7 +584,11 @@ func genBacklog(r *rand.Rand) core.Case {
 					g.do("check l=" + id)
 				}
 			case 2:
-				if id := g.defineDV(g.genuineDV(g.curH), true); id != "" {
+				f := g.genuineDV(g.curH)
+				if r.Intn(2) == 0 {
+					f = g.smallDV(g.curH)
+				}
+				if id := g.defineDV(f, true); id != "" {
 					g.do(fmt.Sprintf("report e=%s swap=%d", id, r.Intn(2)))
 				}
 			default:
@@ -612,8 +634,19 @@ func genBacklog(r *rand.Rand) core.Case {
 			if r.Intn(3) == 0 {
 				g.do("pe max=-1")
 			}
+			if r.Intn(2) == 0 {
+				g.peNear()
+			}
+		}
+		switch r.Intn(4) {
+		case 0:
+			g.concurrentReport()
+		case 1:
+			g.unseenBlock()
 		}
 	}
+	g.peNear()
+	g.peNear()
 	g.do("pe max=-1")
 	g.do(fmt.Sprintf("pe max=%d", g.M))
 	g.do("restart")
@@ -622,6 +655,113 @@ func genBacklog(r *rand.Rand) core.Case {
 		g.c.evDB.Close()
 	}
 	return core.Case{Kind: "backlog", Ops: g.ops}
+}
+
+// peNear asks for pending evidence with a cap within ±2 bytes of the encoded size of a prefix of
+// the pending list (sizes from the definitions' real proto sizes)
+func (g *gctx) peNear() {
+	pend := pendOf(g.lastView)
+	if len(pend) == 0 {
+		g.do("pe max=0")
+		return
+	}
+	k := 1 + g.r.Intn(len(pend))
+	var sum int64
+	for _, key := range pend[:k] {
+		if id := g.idOfKey(key); id != "" {
+			sz := int64(g.c.defs[id].sz)
+			sum += 1 + int64(varintLen(uint64(sz))) + sz
+		}
+	}
+	g.do(fmt.Sprintf("pe max=%d", sum+int64(g.r.Intn(5))-2))
+}
+
+// smallDV: conflicting votes with a nil block on one side and short signatures; consensus reports
+// votes unverified, so such evidence (130..260 encoded bytes) becomes pending through the buffer
+func (g *gctx) smallDV(h int64) dvFields {
+	f := g.genuineDV(h)
+	f.abid = -1
+	sig := fmt.Sprintf("s%d", 1+g.r.Intn(40))
+	f.asig, f.bsig = sig, sig
+	if g.r.Intn(2) == 0 {
+		f.ar, f.br = 0, 0
+	}
+	return f
+}
+
+// concurrentReport: an Update during which consensus reports a new pair; an older pair is put in the
+// buffer first so that the flush has store lookups to do
+func (g *gctx) concurrentReport() {
+	r := g.r
+	if g.curH >= g.N {
+		return
+	}
+	if r.Intn(4) != 0 {
+		h := g.curH - r.Int63n(2)
+		if h < 1 {
+			h = 1
+		}
+		if id := g.defineDV(g.genuineDV(h), true); id != "" {
+			g.do(fmt.Sprintf("report e=%s swap=%d", id, r.Intn(2)))
+		}
+	}
+	g.growTo(g.curH + 1)
+	nh := g.curH + 1
+	eh := nh
+	if r.Intn(3) == 0 {
+		eh = g.curH
+	}
+	id := g.defineDV(g.genuineDV(eh), true)
+	if id == "" {
+		return
+	}
+	if strings.HasPrefix(g.do(fmt.Sprintf("cupdate h=%d ev=- e=%s swap=%d", nh, id, r.Intn(2))), "ok") {
+		g.curH = nh
+	}
+	// the pair reported during that Update is due at the next one
+	if g.curH < g.N && r.Intn(4) != 0 {
+		g.growTo(g.curH + 1)
+		if strings.HasPrefix(g.do(fmt.Sprintf("update h=%d ev=-", g.curH+1)), "ok") {
+			g.curH++
+		}
+	}
+}
+
+// unseenBlock: a block whose evidence the pool has never seen (applied without CheckEvidence, as the
+// block-sync reactors do), after which the same evidence is offered again
+func (g *gctx) unseenBlock() {
+	r := g.r
+	if g.curH >= g.N {
+		return
+	}
+	var l []string
+	for i := 0; i < 1+r.Intn(2); i++ {
+		h := g.curH - r.Int63n(3)
+		if h < 1 {
+			h = 1
+		}
+		if id := g.defineDV(g.genuineDV(h), true); id != "" {
+			l = append(l, id)
+		}
+	}
+	if len(l) == 0 {
+		return
+	}
+	g.growTo(g.curH + 1)
+	if strings.HasPrefix(g.do(fmt.Sprintf("update h=%d ev=%s", g.curH+1, strings.Join(l, ","))), "ok") {
+		g.curH++
+	}
+	for _, id := range l {
+		switch r.Intn(3) {
+		case 0:
+			g.do("add e=" + id)
+		case 1:
+			g.do("check l=" + id)
+		}
+	}
+	if r.Intn(2) == 0 {
+		g.do("check l=" + strings.Join(l, ","))
+	}
 }
 
 func (g *gctx) idOfKey(k string) string {
